@@ -28,6 +28,7 @@ type SpecEnv struct {
 	callerFrame *Frame
 	inOld       bool
 	localsCurrent bool
+	tolerant    *[]string // when set, evaluation errors are collected here instead of breaking the unit
 	errs        []string
 }
 
@@ -38,6 +39,10 @@ var tString = types.Typ[types.String]
 
 func (e *SpecEnv) fail(format string, a ...interface{}) specVal {
 	msg := fmt.Sprintf(format, a...)
+	if e.tolerant != nil {
+		*e.tolerant = append(*e.tolerant, msg)
+		return specVal{term: e.x.vc.freshConst("specerr", "Bool"), typ: tBool}
+	}
 	e.x.unsupp("spec: %s", msg)
 	return specVal{term: e.x.vc.freshConst("specerr", "Bool"), typ: tBool}
 }
